@@ -366,14 +366,14 @@ def step (st : State) : Ev → Option (State × Out)
     | some t => if (st.tasks t).lib ≠ .none then none else some (doYield st t, .susp)
   | .mkFut =>
     let (st, f) := newFut st
-    some (st, .id f)
+    some ({ st with userFut := upd st.userFut f true }, .id f)
   | .setFut f =>
-    if f ≥ st.nFuts then none else some (resolveFut st f .result, .none)
+    if f ≥ st.nFuts ∨ !st.userFut f then none else some (resolveFut st f .result, .none)
   | .awaitFut f =>
     match st.running with
     | none => none
     | some t =>
-      if (st.tasks t).lib ≠ .none ∨ f ≥ st.nFuts then none else
+      if (st.tasks t).lib ≠ .none ∨ f ≥ st.nFuts ∨ !st.userFut f then none else
       match st.futs f with
       | .pending => if (st.futWaiter f).isSome then none else some (blockOn st t f, .susp)
       | .result => some (st, .resumed .none)
